@@ -1,5 +1,6 @@
 import Morlock.Model.TimeCtl
 import Morlock.Driver.Uci
+import Morlock.Model.IterConc
 namespace Morlock.Driver
 open Morlock Morlock.Model
 
@@ -60,21 +61,31 @@ def iterOp (st : DriverState) (args : List String) : String :=
       let g := materialGame z
       let (w, fid) := e.w.fork 0
       let wf : World := { nodes := w.nodes, boards := #[w.board fid] }
-      let rec go (fuel d : Nat) (last : Option (Nat × SearchResult)) : Option (Nat × SearchResult) :=
+      let rec go (fuel d : Nat) (last : Option (Nat × SearchResult)) (mates : List (Nat × Option Nat)) :
+          Option (Nat × SearchResult) × List (Nat × Option Nat) :=
         match fuel with
-        | 0 => last
+        | 0 => (last, mates)
         | fuel + 1 =>
           match (alphaBetaSearch g fullExploration .static wf d Score.negInfScore Score.infScore {}).1 with
-          | none => last
+          | none => (last, mates)
           | some sr =>
+            let md := sr.score.mateDistance.map Int.toNat
             let mateStop := match sr.score.mateDistance with | some md => md ≤ (d : Int) | none => false
-            if d == limit || mateStop then some (d, sr) else go fuel (d + 1) (some (d, sr))
-      match go limit 1 none with
-      | none => "none"
-      | some (d, sr) =>
+            let mates := mates ++ [(d, md)]
+            if d == limit || mateStop then (some (d, sr), mates) else go fuel (d + 1) (some (d, sr)) mates
+      match go limit 1 none [] with
+      | (none, _) => "none"
+      | (some (d, sr), mates) =>
         let l := s!"{d}:{fmtScore sr.score}:{pvStr sr.pv}"
-        -- reference: value of the exhaustive negamax at that depth; the PV is the model's
-        s!"last={l} halt={l}:true increasing=true faithful=true untouched=true"
+        -- conformance of the small-step model IterConc (the C15 theorems are about it): under the canonical
+        -- schedule (searcher runs, consumer receives, then one Halt caller) it must report depths 1..d and stop there
+        let cfg : IterConc.Cfg := { limit := some limit, search := fun k => k, mate := fun k => (mates.lookup k).join }
+        let sched : List IterConc.Act := (List.replicate (12 * (d + 2)) [IterConc.Act.searcher false, .consumer]).flatten ++ List.replicate 8 (.halt 0)
+        let fin := IterConc.run cfg (IterConc.init 1) sched
+        let concOk := fin.sent.map (·.depth) == (List.range d).map (· + 1) && fin.spc == .exited &&
+          (match fin.halts with | [.done _ res] => res.depth == d | _ => false)
+        let tag := if concOk then "" else s!" CONC-MISMATCH:sent={fin.sent.map (·.depth)}"
+        s!"last={l} halt={l}:true increasing=true faithful=true untouched=true{tag}"
   | _, _ => "bad-op"
 
 end Morlock.Driver
